@@ -128,8 +128,20 @@ class Gen:
                                 "cases": [{"test": None, "b": [{"t": "p", "k": self.nk()}, ex], "brk": False}]}]})
         else:
             body.append(mk_exit([]))
-        fin = [{"t": "p", "k": self.nk()},
-               {"t": rng.choice(("continue", "continue", "break")), "loop": oid, "label": None, "cond": None}]
+        olabel = None
+        cstmt = {"t": rng.choice(("continue", "continue", "break")), "loop": oid, "label": None, "cond": None}
+        w = rng.random()
+        if w < 0.3 and cstmt["t"] == "continue":
+            # the cancelling jump sits in a switch case of the finally block
+            cstmt = {"t": "switch", "id": self.nid(), "v": 1,
+                     "cases": [{"test": 1, "b": [{"t": "p", "k": self.nk()}, cstmt], "brk": False}]}
+        elif w < 0.45:
+            olabel = "L%d" % oid
+            cstmt = {"t": "switch", "id": self.nid(), "v": 2,
+                     "cases": [{"test": 2, "b": [{"t": "break", "loop": oid, "label": olabel, "cond": None}], "brk": False}]}
+        elif w < 0.55:
+            cstmt = {"t": "lblock", "label": "B%d" % self.nid(), "b": [{"t": "p", "k": self.nk()}, cstmt]}
+        fin = [{"t": "p", "k": self.nk()}, cstmt]
         node = {"t": "try", "id": self.nid(), "b": None, "c": None, "f": fin}
         if rng.random() < 0.35:
             # the exit is taken from the catch block instead
@@ -139,7 +151,7 @@ class Gen:
             node["b"] = body
             if rng.random() < 0.3:
                 node["c"] = [{"t": "p", "k": self.nk()}]
-        return {"t": "loop", "id": oid, "kind": okind, "n": rng.randrange(2, 4), "label": None,
+        return {"t": "loop", "id": oid, "kind": okind, "n": rng.randrange(2, 4), "label": olabel,
                 "b": [{"t": "p", "k": self.nk()}, node, {"t": "p", "k": self.nk()}]}
 
     def stmt(self, depth, ctx):
@@ -197,6 +209,8 @@ class Gen:
                     node["c"] = self.block(depth + 1, c3, rng.randrange(1, 3))
             if "f" in shape:
                 node["f"] = self.block(depth + 1, dict(ctx, in_finally=True, in_try=ctx.get("in_try")), rng.randrange(1, 3))
+            if node["c"] is not None and rng.random() < 0.05:
+                node["nobind"] = True
             # blocks that are really empty in the source text (no probe call either)
             if rng.random() < 0.12:
                 part = rng.choice([x for x in ("b", "c", "f") if node[x] is not None])
@@ -339,7 +353,11 @@ def r_stmt(s, ind=""):
         bare = s.get("bare", ())
         if s["c"] is not None:
             if "c" in bare:
-                out += " catch (e%d) { }" % s["id"]
+                out += " catch (e%d) { }" % s["id"] if not s.get("nobind") else " catch { }"
+            elif s.get("nobind"):
+                # ES2019 optional catch binding: refused by the pinned parser (the whole program is then
+                # skipped); if an engine accepts it, it has to mean the same as an unused binding
+                out += " catch {\n%spc(%d, 'nobind');\n%s\n%s}" % (i2, s["id"], r_block(s["c"], i2), ind)
             else:
                 out += " catch (e%d) {\n%spc(%d, desc(e%d));\n%s\n%s}" % (s["id"], i2, s["id"], s["id"], r_block(s["c"], i2), ind)
         if s["f"] is not None:
@@ -591,7 +609,7 @@ class Model:
                 if s["c"] is None:
                     raise
                 if "c" not in bare:
-                    self.log.append(["pc", s["id"], e.desc])
+                    self.log.append(["pc", s["id"], e.desc if not s.get("nobind") else "nobind"])
                 self.block(s["c"], env)
         except BaseException:
             # abrupt completion of try or catch: finally runs, and its own abrupt completion wins
@@ -792,6 +810,8 @@ def compare(mo, en, prog):
     if en["kind"] in ("cap", "limit_time", "limit_mem"):
         v.append({"clause": "C07.log", "detail": "program did not finish (%s); model expects %d log entries" % (en["kind"], len(mlog))})
         return v
+    if _uses_nobind(prog) and not _supports_nobind():
+        return v        # syntax this engine does not accept (wherever the refusal surfaces): nothing to compare
     if en["kind"] == "js_syntax" and not (mo["outcome"][0] == "uncaught" and mo["outcome"][1].startswith("SyntaxError")):
         v.append({"clause": "C07.log", "detail": "program rejected or failed to compile: %s" % en["msg"]})
         return v
@@ -838,6 +858,36 @@ def handler_sites(prog):
     for f in prog["funcs"]:
         _walk(f["b"], visit)
     return out
+
+
+_NOBIND = []
+
+
+def _supports_nobind():
+    """Does the engine under test accept `catch { }` (asked once per process)?"""
+    if not _NOBIND:
+        from microjs import Context
+        counting = W.S.counting
+        W.S.counting = False
+        try:
+            Context().eval("try { } catch { }")
+            _NOBIND.append(True)
+        except Exception:
+            _NOBIND.append(False)
+        finally:
+            W.S.counting = counting
+    return _NOBIND[0]
+
+
+def _uses_nobind(prog):
+    found = []
+
+    def visit(st, path):
+        if st["t"] == "try" and st.get("nobind"):
+            found.append(1)
+    for f in prog["funcs"]:
+        _walk(f["b"], visit)
+    return bool(found)
 
 
 def targeted_pairs(prog, singles, limit):
